@@ -108,6 +108,8 @@ type VCtx struct {
 	allFresh  []*Term           // every struct object allocated by this invocation
 	storedIn  map[string][]Val  // values stored into a not yet published fresh object / local cell (published with it)
 	pubCells  map[string]*Loc // captured variables of the closure under verification that follow the publication discipline
+	assertOld *State
+	assertExtra map[string]Val
 	exemptFresh []*Term // set while translating a global clause to be proved: unpublished fresh objects
 	lastCSEntry *State // state right after the most recent lock acquisition (csold)
 	localMon  *localMonState
